@@ -217,7 +217,7 @@ func c02Pipeline(ctx *Ctx, r *Rng) {
 				faultLine = k + 1
 				pending = true
 				edges = includeEdges(c.files)
-				ctx.Cov.Hit("misplaced directive pending at an INCLUDE")
+				ctx.Cov.Hit("misplaced directive directly before an INCLUDE")
 			}
 		}
 		if pending {
